@@ -24,6 +24,7 @@ RULE = (
 ASSUMPTIONS = [
     "published slit-pore HK equation with Kirkwood-Mueller dispersion constants (written independently in this file)",
     "Saito-Foley cylinder series summed to convergence, compared with the closure handed to the solver; allowed: three times the error of the documented truncation after 25 x radius terms",
+    "published Rege-Yang sphere potentials (layer i interacts with the enclosing layer's population; average weighted by the layer populations), compared with the closure handed to the solver at relative 1e-7",
     "published Rege-Yang slit potentials (one layer: two walls; more layers: (2 eps_hgg + (M-2) eps_ggg)/M with eps_ggg = 2 x guest-guest term), compared with the closure handed to the solver at relative 2e-5 "
     "(pyGAPS rounds (2/5)^(1/6) to 7 digits)",
     "a solved width is accepted if the pressure lies inside the band exp(phi(L -+ 5e-5 nm)) (solver xatol 1e-5) or the width "
@@ -195,6 +196,48 @@ def _check_hk_cylinder_potential(ctx, ads, mat, T, r):
         ctx.case(["hk-cylinder-potential", round(L, 1)])
         if not close(got, exp, allowed, 1e-12):
             ctx.violation("HK/cylinder/potential-vs-converged-series", "the potential handed to the solver is not the Saito-Foley series summed to convergence (within three times the error of the documented truncation)", L=L, allowed=allowed, got=got, expected=exp,
+                          ads=ads, mat=mat, T=T)
+            return
+
+
+def ry_sphere_lnp(L, ads, mat, T):
+    """Rege-Yang spherical cavity of radius L (nm): layer potentials eps_1 (wall) and eps_i (enclosing adsorbate layer i-1),
+    averaged with the layer populations N_i = 4 pi (L - d0 - (i-1) d_g)^2 n_g; M = int(((2L - d_h)/d_g - 1)/2) + 1 layers."""
+    dg, dh = ads["molecular_diameter"], mat["molecular_diameter"]
+    d0 = (dg + dh) / 2
+    pa, pm = ads["polarizability"] * 1e-27, mat["polarizability"] * 1e-27
+    xa, xm = ads["magnetic_susceptibility"] * 1e-27, mat["magnetic_susceptibility"] * 1e-27
+    A_gg = 1.5 * M_E * C_L**2 * pa * xa
+    A_gh = 6 * M_E * C_L**2 * pa * pm / (pa / xa + pm / xm)
+
+    def eps(n_interacting, A, d, a):
+        b = 1 - a
+        return 2 * n_interacting * A / (4 * (d * 1e-9)**6) * (a**12 / (10 * b) * ((1 - b)**-10 - (1 + b)**-10) - a**6 / (4 * b) * ((1 - b)**-4 - (1 + b)**-4))
+
+    M = int(((2 * L - dh) / dg - 1) / 2) + 1
+    N = [4 * math.pi * ((L - d0 - (i - 1) * dg) * 1e-9)**2 * ads["surface_density"] for i in range(1, M + 1)]
+    E = [eps(4 * math.pi * (L * 1e-9)**2 * mat["surface_density"], A_gh, d0, d0 / L)]
+    for i in range(2, M + 1):
+        E.append(eps(N[i - 2], A_gg, dg, dg / (L - d0 - (i - 2) * dg)))
+    return N_A / (R_GAS * T) * sum(n * e for n, e in zip(N, E)) / sum(N)
+
+
+def _check_ry_sphere_potential(ctx, ads, mat, T, r):
+    fun = _CAPTURE[-1]["fun"]
+    dg, dh = ads["molecular_diameter"], mat["molecular_diameter"]
+    d0 = (dg + dh) / 2
+    # radii holding one, two and three or more concentric layers
+    edges = [(dh + 3 * dg) / 2, (dh + 5 * dg) / 2]
+    Ls = [r.uniform(d0 * 1.05, edges[0] - 1e-6) for _ in range(3)] + [r.uniform(edges[0] + 1e-6, edges[1] - 1e-6) for _ in range(4)] + [r.uniform(edges[1] + 1e-6, edges[1] + 1.0) for _ in range(4)]
+    for L in Ls:
+        got, exp = float(fun(L)), ry_sphere_lnp(L, ads, mat, T)
+        layers = int(((2 * L - dh) / dg - 1) / 2) + 1
+        ctx.count("ry_sphere_potential", "%d layer(s)" % min(layers, 3))
+        ctx.case(["ry-sphere-potential", min(layers, 3), round(L, 1)])
+        if not (math.isfinite(got) and math.isfinite(exp)):
+            continue
+        if not close(got, exp, 1e-7, 1e-12):
+            ctx.violation("RY/sphere/potential-vs-published-equation", "the potential handed to the solver is not the published Rege-Yang potential of a spherical cavity", L=L, layers=layers, got=got, expected=exp,
                           ads=ads, mat=mat, T=T)
             return
 
@@ -415,6 +458,8 @@ def _run_residual(case, ctx):
         _check_ry_slit_potential(ctx, ads, mat, T, r)
     if model.startswith("HK") and geo == "cylinder":
         _check_hk_cylinder_potential(ctx, ads, mat, T, r)
+    if model.startswith("RY") and geo == "sphere":
+        _check_ry_sphere_potential(ctx, ads, mat, T, r)
     factor = 1.0 if (geo == "slit" or model.startswith("RY")) else 2.0
     if model.startswith("RY") and geo != "slit":
         factor = 2.0
@@ -486,6 +531,8 @@ def finalize(ctx):
     ry = ctx.tables.get("ry_slit_potential", {})
     if ry.get("single-layer", 0) < 10 or ry.get("multi-layer", 0) < 10:
         reasons.append("Rege-Yang slit potential compared at fewer than 10 widths per regime (%s)" % ry)
+    if ctx.tables.get("ry_sphere_potential", {}).get("3 layer(s)", 0) < 8:
+        reasons.append("Rege-Yang sphere potential compared at fewer than 8 radii with three or more layers")
     if ctx.tables.get("hk_cylinder_potential", {}).get("radius>=0.8nm", 0) < 10:
         reasons.append("Saito-Foley cylinder potential compared at fewer than 10 radii above 0.8 nm")
     if sum(ctx.tables.get("forward_slit", {}).values()) < 20:
